@@ -52,6 +52,13 @@ def gen_str(r, alpha, maxlen):
 def build_objs(spec):
     r = random.Random(spec['oseed'])
     objs = []
+    if spec.get('regular'):
+        # tens of thousands of near-identical records: several MiB of text that compress to a few KiB,
+        # so ONE compressed read chunk inflates to far more than any internal buffer
+        objs = [{'id': i, 'name': 'record', 'value': 1.5, 'tags': ['a', 'b'], 'ok': True} for i in range(spec['n'])]
+        if spec.get('long'):
+            objs[len(objs) // 2]['blob'] = 'xy' * (spec['long'] // 2)
+        return objs
     for i in range(spec['n']):
         alpha = spec['alpha'] if spec['alpha'] != 'mixed' else r.choice(list(STR_ALPHA))
         o = {}
@@ -96,7 +103,7 @@ class C19(Check):
             'Object counts 0, 1, few, and enough to fill 1..5 read chunks of 64 KiB. non-trivial = >= 2 objects; distinct = hash of the case')
     ASSUMPTIONS = ['orjson / json are trusted as JSON codecs; floats are finite; top-level items are dicts (domain of the property)']
     ANCHORS = ['rxsci/container/json.py', 'rxsci/io/file.py', 'rxsci/framing/line.py', 'rxsci/data/codec.py']
-    REQUIRED_TAGS = ['none', 'gzip', 'zstd', 'stream', 'path', 'fileobj', 'open_obj', 'empty', 'multi-chunk', 'astral', 'whole-document']
+    REQUIRED_TAGS = ['none', 'gzip', 'zstd', 'stream', 'path', 'fileobj', 'open_obj', 'empty', 'multi-chunk', 'astral', 'whole-document', 'over-1MiB-compressible']
     REQUIRED_OBSERVED = ['objects_compared']
 
     def __init__(self):
@@ -115,6 +122,11 @@ class C19(Check):
         comps = [None, 'gzip', 'zstd']
         modes = ['stream', 'reframed', 'path', 'fileobj', 'open_obj', 'whole']
         for k in range(n):
+            if k % 40 == 20:
+                yield {'objs': {'n': rng.choice([30000, 45000]), 'alpha': 'plain', 'maxstr': 3, 'pad': 0, 'long': rng.choice([0, 150000]),
+                                'oseed': rng.randrange(1 << 30), 'regular': True},
+                       'compression': comps[(k // 40) % 3], 'mode': ['path', 'fileobj', 'open_obj'][(k // 120) % 3]}
+                continue
             shape = k % 8
             if shape == 0:
                 cnt = 0
@@ -145,6 +157,8 @@ class C19(Check):
             out.tags.append('empty')
         if len(objs) >= 2:
             out.nontrivial = True
+        if case['objs'].get('regular'):
+            out.tags.append('over-1MiB-compressible')
         J = rs.container.json
 
         if mode in ('stream', 'reframed'):
